@@ -120,6 +120,9 @@ where
                         Poll::Ready(Ok(_)) => {
                             if si.start_send_unpin(Frame::Error(err)).is_ok() {
                                 *buffered_err = Some((None, si));
+                                // Close this sink before another replier can be rejected,
+                                // which would otherwise overwrite (and leak) it
+                                continue;
                             }
                         }
                         Poll::Ready(Err(e)) => warn!("Could not poll replier sink: {e:?}"),
